@@ -103,7 +103,33 @@ def _frame_trace(k: int) -> List[Dict[str, Any]]:
             synth.profiler_step(2, b + 200, 60), synth.host_op("aten::relu", b + 205, 20), synth.profiler_step(3, b + 260, 40), synth.host_op("aten::relu", b + 265, 20)]
 
 
+def _overrun_trace() -> List[Dict[str, Any]]:
+    """a nested host event that ends one time unit after its parent (rounding of nanosecond traces): the closing edge child -> parent weighs -1;
+    analysed with CRITICAL_PATH_STRICT_NEGATIVE_WEIGHT_CHECKS=1 the graph keeps that weight (and is accepted: only weights below -1 are rejected)"""
+    from hv import synth
+
+    b = 1_000_000
+    return [synth.host_op("aten::first_op", b, 5), synth.profiler_step(1, b + 5, 295),
+            synth.host_op("aten::linear", b + 10, 100), synth.host_op("aten::addmm", b + 20, 91), synth.launch(b + 30, 10, 1), synth.kernel("void gemm_kernel", b + 50, 80, 7, 1),
+            synth.host_op("aten::relu", b + 120, 150), synth.launch(b + 130, 10, 2), synth.kernel("void elementwise_kernel", b + 145, 30, 7, 2),
+            synth.profiler_step(2, b + 300, 60), synth.host_op("aten::relu", b + 305, 20), synth.profiler_step(3, b + 360, 40), synth.host_op("aten::relu", b + 365, 20)]
+
+
 def _case(seed: int) -> Dict[str, Any]:
+    if seed <= -100:  # the crafted over-running child, analysed, saved and restored under the strict negative-weight option
+        old = os.environ.get("CRITICAL_PATH_STRICT_NEGATIVE_WEIGHT_CHECKS")
+        os.environ["CRITICAL_PATH_STRICT_NEGATIVE_WEIGHT_CHECKS"] = "1"
+        try:
+            return _case_body(seed)
+        finally:
+            if old is None:
+                os.environ.pop("CRITICAL_PATH_STRICT_NEGATIVE_WEIGHT_CHECKS", None)
+            else:
+                os.environ["CRITICAL_PATH_STRICT_NEGATIVE_WEIGHT_CHECKS"] = old
+    return _case_body(seed)
+
+
+def _case_body(seed: int) -> Dict[str, Any]:
     from hv import cpgen, rt
     from hta.analyzers.critical_path_analysis import restore_cpgraph
 
@@ -112,10 +138,14 @@ def _case(seed: int) -> Dict[str, Any]:
     work = tempfile.mkdtemp(prefix="hv_c19_")
     extracted: List[str] = []
     try:
-        evs = cpgen.gen_cp_events(seed, n_steps=3, n_streams=1 + seed % 3, annotations=bool(seed % 2), n_threads=2 if seed % 4 == 1 else 1, python_frames=(seed % 4 == 3))
-        if seed < 0:
+        evs = cpgen.gen_cp_events(abs(seed), n_steps=3, n_streams=1 + seed % 3, annotations=bool(seed % 2), n_threads=2 if seed % 4 == 1 else 1, python_frames=(seed % 4 == 3))
+        if seed <= -100:
+            evs = _overrun_trace()
+        elif seed < 0:
             evs = _frame_trace(-seed)
         inp = {"seed": seed, "events": {0: evs}}
+        if seed <= -100:
+            inp["environment"] = {"CRITICAL_PATH_STRICT_NEGATIVE_WEIGHT_CHECKS": "1"}
         with rt.trace_dir({0: evs}) as d:
             try:
                 ta = rt.lib(fails, "load", inp, rt.load_analysis, d)
@@ -134,7 +164,7 @@ def _case(seed: int) -> Dict[str, Any]:
                 for gi, g in enumerate(graphs):
                     cur = g
                     want = _snapshot(g)
-                    for cycle in range(1 + seed % 3):
+                    for cycle in range(1 + abs(seed) % 3):
                         z = rt.lib(fails, "save", inp, cur.save, out_dir)
                         extracted.append(os.path.join("/tmp", out_dir.lstrip("/")))
                         cur = rt.lib(fails, "restore_cpgraph", inp, restore_cpgraph, z, ta.t, 0)
@@ -179,7 +209,7 @@ def bounded(ctx):
     from hv import rt
 
     n = 24 if not ctx.thorough else 300
-    res = rt.pmap(_case, [ctx.seed * 83 + i for i in range(n)] + [-k for k in range(1, 5)], ctx.procs)  # negative: crafted traces with a Python frame on the path
+    res = rt.pmap(_case, [ctx.seed * 83 + i for i in range(n)] + [-k for k in range(1, 5)] + [-100, -101, -102], ctx.procs)  # negative: crafted traces (Python frame on the path; over-running child under the strict option, 1-3 cycles)
     return rt.summarise(res, f"{PROP}.bounded", f"{n} traces x up to two analysed windows, each saved and restored 1-3 times under ONE directory name (so later saves overwrite earlier "
                         "ones and earlier extractions exist); equal-weight alternative paths occur (two streams feeding one synchronisation)")
 
